@@ -235,6 +235,7 @@ func (d *Document) AddListItem(text string, config *ListConfig) *Paragraph {
 		run := Run{
 			Text: Text{
 				Content: text,
+				Space:   "preserve",
 			},
 		}
 		paragraph.Runs = append(paragraph.Runs, run)
